@@ -18,6 +18,11 @@ func (m *ProofExternalOwnedAccount) ValidateBasic() error {
 		return errorsmod.Wrapf(errors.ErrInvalidRequest, "account is not a valid bech32 account address: %s", m.Account)
 	}
 
+	if len(accAddr) != common.AddressLength {
+		// the signature is checked against the Ethereum address of the account, which only a 20 bytes address is
+		return errorsmod.Wrapf(errors.ErrInvalidRequest, "account must be a %d bytes address: %s", common.AddressLength, m.Account)
+	}
+
 	if !strings.HasPrefix(m.Hash, "0x") {
 		return errorsmod.Wrap(errors.ErrInvalidRequest, "hash must starts with 0x")
 	}
